@@ -867,7 +867,7 @@ class Observer:
         wf = self.step("weak_form", lambda: lib.weak_form())
         dense = self.step("weak_form.to_dense", lambda: np.asarray(wf.to_dense()))
         self.cmp("weak_form", dense, m["W"], v.mag)
-        if not dtype_ok(wf.dtype, m["W"]):
+        if not dtype_ok(wf.dtype, m["W"], single=self.v.single):
             raise Failure("weak_form:dtype", "declared dtype of the weak form %s, NumPy promotion gives %s" % (wf.dtype, m["W"].dtype))
         if self.rng.random() < 0.5:
             x = self.rvec(m["W"].shape[1])
@@ -889,7 +889,7 @@ class Observer:
         wf = self.step("weak_form", lambda: lib.weak_form())
         dense = self.step("weak_form.to_dense", lambda: np.asarray(wf.to_dense()))
         self.cmp("weak_form", dense, m["W"], v.mag)
-        if not dtype_ok(wf.dtype, m["W"]):
+        if not dtype_ok(wf.dtype, m["W"], single=self.v.single):
             raise Failure("weak_form:dtype", "declared dtype of the weak form %s, NumPy promotion gives %s" % (wf.dtype, m["W"].dtype))
         if self.rng.random() < 0.5:
             x = self.rvec(m["W"].shape[1])
@@ -908,7 +908,7 @@ class Observer:
         if shape != W.shape:
             raise Failure("shape", "operator shape %s, model %s" % (shape, W.shape))
         dt = self.step("dtype", lambda: np.dtype(lib.dtype))
-        if not dtype_ok(dt, W):
+        if not dtype_ok(dt, W, single=self.v.single):
             raise Failure("dtype", "declared dtype %s, NumPy promotion of the operands gives %s" % (dt, W.dtype))
         n = W.shape[1]
         dense = None
